@@ -1495,11 +1495,17 @@ def gen_linkto_programs(r, n):
         if mode == "opts_small_size" and len(d) == 0:
             mode = "opts_bad_size"
         if mode == "relink":
-            # the same bytes were linked before from a file that is gone now: the address holds a dangling
-            # link.  Whatever the second link answers, an ok must mean the key reads back
+            # the same bytes were linked before from another file, which has since been removed, rewritten, or
+            # left alone: the address holds a dangling / stale / good link.  Linking the (intact) new target must
+            # succeed and the key must read back its bytes (F18: the old link used to be trusted)
             ops.append(f"put tgt/gone{i} {hx(d)}")
             ops.append(f"link_to {r.pick('sa')} c0 {hx(b'first-' + key[:8])} abs:tgt/gone{i}")
-            ops.append(f"del tgt/gone{i}")
+            how = r.pick(["del", "rewrite", "rewrite", "keep"])
+            if how == "del":
+                ops.append(f"del tgt/gone{i}")
+            elif how == "rewrite":
+                ops.append(f"put tgt/gone{i} {hx(d + b' rewritten by its owner')}")
+            tags["relink"] = how
         if mode == "partial_cd":
             # the handle is opened (cache given as an absolute path), then the process' working directory
             # changes before the commit: a relative target still means the file named at open time
@@ -1588,9 +1594,9 @@ def mon_linkto(rr):
         return out
     res = toks(rr.impl[li])
     sig = {"form": t["form"], "mode": t["mode"], "op": rr.prog.ops[li].split(" ")[0]}
+    if t["mode"] == "relink":
+        sig["relink"] = t["relink"]
     keyed = t["mode"] != "oneshot_hash"
-    if t["mode"] == "relink" and res[0] != "ok":
-        return out            # refusing to link over a dangling link is the pinned behaviour; an ok must be truthful
     if t["mode"] in ("opts_bad_size", "opts_bad_sri", "opts_small_size"):
         want = ["err", "integrity"] if t["mode"] == "opts_bad_sri" else ["err", "size"]
         if res[:2] != want:
